@@ -241,6 +241,54 @@ func main() {
 		cmdVerify(os.Args[2:])
 	case "check":
 		cmdCheck(os.Args[2:])
+	case "funcs":
+		pks, err := loadPackages(os.Args[2:3])
+		if err != nil {
+			fmt.Fprintln(os.Stderr, err)
+			os.Exit(2)
+		}
+		var re *regexp.Regexp
+		if len(os.Args) > 3 {
+			re = regexp.MustCompile(os.Args[3])
+		}
+		for _, pk := range pks {
+			var keys []string
+			for k := range pk.funcs {
+				keys = append(keys, k)
+			}
+			sort.Strings(keys)
+			for _, k := range keys {
+				if re != nil && !re.MatchString(k) {
+					continue
+				}
+				f := pk.funcs[k]
+				fx := newFuncExec(pk, f, k, nil)
+				if len(f.Blocks) > 0 {
+					fx.analyse()
+				}
+				pos := pk.prog.Fset.Position(f.Pos())
+				fmt.Printf("%-50s %s:%d loops=%d blocks=%d\n", k, filepath.Base(pos.Filename), pos.Line, len(fx.loops), len(f.Blocks))
+				if len(os.Args) > 4 {
+					for _, li := range fx.loops {
+						fmt.Printf("    loop#%d header b%d line %d\n", li.ord, li.header.Index, pk.prog.Fset.Position(fx.headerPos(li)).Line)
+					}
+					for _, b := range f.Blocks {
+						for _, in := range b.Instrs {
+							switch in.(type) {
+							case *ssa.Return:
+								ln := 0
+								for i := len(b.Instrs) - 1; i >= 0 && ln == 0; i-- {
+									ln = pk.prog.Fset.Position(b.Instrs[i].Pos()).Line
+								}
+								fmt.Printf("    return#%d b%d near line %d\n", fx.siteOrd[in], b.Index, ln)
+							case *ssa.Call:
+								fmt.Printf("    call %s b%d line %d\n", fx.callOrd[in], b.Index, pk.prog.Fset.Position(in.Pos()).Line)
+							}
+						}
+					}
+				}
+			}
+		}
 	default:
 		fmt.Fprintln(os.Stderr, "unknown command", os.Args[1])
 		os.Exit(2)
@@ -306,8 +354,12 @@ func cmdVerify(args []string) {
 				}
 			}
 			fmt.Printf("-- %s [%s]: %d/%d discharged, paths=%d %s\n", r.Key, r.Prop, nd, len(r.Obls), r.Paths, r.Aborted)
+			seenErr := map[string]bool{}
 			for _, e := range r.SpecErrs {
-				fmt.Println("   SPEC ERROR:", e)
+				if !seenErr[e] && len(seenErr) < 8 {
+					fmt.Println("   SPEC ERROR:", e)
+				}
+				seenErr[e] = true
 			}
 			for _, u := range r.Unsupported {
 				fmt.Println("   unsupported:", u)
@@ -331,8 +383,13 @@ func cmdVerify(args []string) {
 					}
 					fmt.Printf("   %-10s %-50s inst=%d %.2fs %v  %s\n", s, o.Name, len(o.Instances), secs, keysOf(sv), o.Text)
 					if s != "discharged" {
+						shown := 0
 						for _, in := range o.Instances {
+							if shown >= 2 {
+								break
+							}
 							if in.Verdict != "unsat" || o.Cover {
+								shown++
 								g := in.Goal.S
 								if len(g) > 300 {
 									g = g[:300] + "..."
